@@ -593,9 +593,11 @@ func hasDotStarPrefix(re *syntax.Regexp) bool {
 	for first.Op == syntax.OpCapture && len(first.Sub) > 0 {
 		first = first.Sub[0]
 	}
-	// .* = OpStar(OpAnyChar or OpAnyCharNotNL)
+	// .* = OpStar(OpAnyCharNotNL). (?s).* is not included: the searchers use this flag
+	// to place the match start at the beginning of the LINE of the suffix, which is
+	// only right for a dot that stops at newlines; (?s).* takes the reverse-DFA path.
 	return first.Op == syntax.OpStar && len(first.Sub) > 0 &&
-		(first.Sub[0].Op == syntax.OpAnyChar || first.Sub[0].Op == syntax.OpAnyCharNotNL)
+		first.Sub[0].Op == syntax.OpAnyCharNotNL
 }
 
 // isWildcardSubexpression checks if a subexpression acts as a "wildcard" that can
